@@ -3,7 +3,7 @@
 cd "$(dirname "$(readlink -f "$0")")"
 rc=0
 for i in $(seq -w 1 20); do ./check C$i --tier quick 2>&1 | tail -1; [ ${PIPESTATUS[0]} -eq 0 ] || rc=1; done
-python3 tools_tables.py logs/thorough.log logs/seeds-final.log,logs/seeds-round5-final.log logs/safe-final.log,logs/safe-final-2.log
+python3 tools_tables.py logs/thorough.log logs/seeds-final.log logs/safe-final.log,logs/safe-final-2.log
 python3-vt - <<'PY'
 import json,glob,jsonschema
 jsonschema.validate(json.load(open('/verif/MANIFEST.json')), json.load(open('/root/.vp/MANIFEST.schema.json')))
